@@ -1,4 +1,5 @@
 import re
+import os
 from . import evaluate, numeric, structure, reduce, symbolic, wrappers, frame, ordering, history, gfam
 from .common import method_threshold
 
@@ -13,7 +14,7 @@ def all_specs(prog, tier):
         out += m.specs(prog, tier)
     # arities beyond the tier's K are only kept for the methods whose code branches on an arity
     # threshold that large (otherwise K = 3 / 4 already covers every code path shape)
-    base_k = 3 if tier == "quick" else 4
+    base_k = int(os.environ["PYVC_K"]) if os.environ.get("PYVC_K") else (3 if tier == "quick" else 4)
     kept = []
     for s in out:
         m = _KFAM.search(s.name)
